@@ -349,4 +349,28 @@ PROPS = {
         "partial": ["builder-level part of C07 (redirect insertion, unknown-export error, which operations the builder issues on the table) is not covered here",
                     "no-misattribution is proved outside four input classes; the unrestricted statement is refuted (4 witnesses)"],
     },
+    "C05": {
+        "harness": "c05",
+        "props_file": "Props/C05.v",
+        "run_module": "Model.Graph Model.Walk Model.RunC15 Model.RunC02 Model.RunC14 Model.Prune Model.RunC17 Model.Builder Model.RunC01 Model.RunC19 Model.RunC05",
+        "run_fn": "run_c05",
+        "pinned_theorems": ["C05_presented", "C05_rejected", "C05_one_retry", "C05_redirect_rejected",
+                            "C05_recorded_once", "C05_recorded_value", "C05_text_hash_refuted"],
+        "rule": ("C01 worlds, mostly remote, where 12% of remote sources carry a UTF-8 BOM or are served as UTF-16 "
+                 "with a charset header and 15% of remote specifiers serve different bytes under CacheSetting::Reload; "
+                 "lockfile absent (15%) or holding entries for ~45% of the remote specifiers (incl. redirecting, missing "
+                 "and erroring ones): 60% matching the served bytes, 20% matching only the Reload bytes, 20% matching "
+                 "neither. The harness loader verifies with the real LoaderChecksum::check_source; its locker logs every "
+                 "call. Compared with the model: graph, every loader call (specifier, asset, cache setting, presented "
+                 "checksum) and every set_remote_checksum call. Judged on the real observation by the extracted "
+                 "c05_holds; and the same world is built AGAIN on the real code with the lockfile the first build "
+                 "produced: no recorded checksum may be rejected for unchanged content. non-trivial = lockfile with "
+                 ">= 1 entry and (an integrity error or a recorded checksum)"),
+        "assumptions": [
+            "the loader honours its contract: content whose SHA-256 differs from the presented checksum is rejected with ChecksumIntegrity",
+            "registry (JSR) manifests and package files are not covered (builder stage B2)",
+            "known finding F-C05a is reported as KNOWN-FINDING",
+        ],
+        "partial": ["registry half of C05 (manifest checksums, package file checksums, https URLs into the registry) not modelled yet"],
+    },
 }
